@@ -236,6 +236,21 @@ main (void)
                       if (!ok) bad = 1;
                     }
                 }
+              else if (!strcmp (a, "clr"))
+                {
+                  dbus_bool_t ok = FALSE;
+                  switch (atoi (b))
+                    {
+                    case 1: ok = dbus_message_set_path (m, NULL); break;
+                    case 2: ok = dbus_message_set_interface (m, NULL); break;
+                    case 3: ok = dbus_message_set_member (m, NULL); break;
+                    case 4: ok = dbus_message_set_error_name (m, NULL); break;
+                    case 6: ok = dbus_message_set_destination (m, NULL); break;
+                    case 7: ok = dbus_message_set_sender (m, NULL); break;
+                    case 10: ok = dbus_message_set_container_instance (m, NULL); break;
+                    }
+                  if (!ok) bad = 1;
+                }
               else if (!strcmp (a, "b") && n >= 2)
                 {
                   int code = b[0];
